@@ -718,3 +718,17 @@ func init() {
 	})
 	reg("unsafe.String", func(p *Path, fn *ssa.Function, a []Value) Value { p.unsup("unsafe.String"); return nil })
 }
+
+// retry.Do: the retried function is called until it succeeds, at most 3 times (delays are not modelled)
+func init() {
+	reg("github.com/avast/retry-go.Do", func(p *Path, fn *ssa.Function, a []Value) Value {
+		var err Value = IfaceV{}
+		for i := 0; i < 3; i++ {
+			err = p.callValue(a[0], nil, nil, nil)
+			if isNilValue(err) {
+				return IfaceV{}
+			}
+		}
+		return err
+	})
+}
